@@ -209,6 +209,9 @@ class Peer(object):
                 result = int(result)
             except ValueError:
                 pass
+        # bool is a subclass of int: a JSON true / false is not a number
+        if isinstance(result, bool):
+            return None
         return result if isinstance(result, int) else None
 
     def _string(self, key):
